@@ -5,6 +5,23 @@ var props = map[string]*PropDef{}
 func reg(p *PropDef) { props[p.ID] = p }
 
 func init() {
+	mixinAssume := []string{
+		"documents are those go-openapi/spec loads, in serialization normal form (absent == zero value)",
+		"operation ids are unique within each document and none has the form <id>Mixin<N> of another (hypotheses of C18; the generator guarantees them)",
+		"extension keys are lower-case (x-...)",
+	}
+	reg(&PropDef{
+		ID: "C17", Level: "proof", FactsOK: true,
+		LeanModules: []string{"Verif.Properties.C17"},
+		Streams:     []func(*Ctx) StreamResult{mixinStream.Run},
+		Assumptions: mixinAssume,
+	})
+	reg(&PropDef{
+		ID: "C18", Level: "proof", FactsOK: true,
+		LeanModules: []string{"Verif.Properties.C18"},
+		Streams:     []func(*Ctx) StreamResult{mixinStream.Run},
+		Assumptions: mixinAssume,
+	})
 	reg(&PropDef{
 		ID: "C19", Level: "proof", FactsOK: true,
 		LeanModules: []string{"Verif.Properties.C19"},
